@@ -78,11 +78,11 @@ class Wrappers:
             return out
         f = "vec_znx_rotate" if kind == "rot" else "vec_znx_automorphism"
         for mk in self.mods:
-            out += [(f, mk, False), (f, mk, True), (f, mk, "one"), (f, mk, "compact")]
+            out += [(f, mk, False), (f, mk, True), (f, mk, "one"), (f, mk, "compact"), (f, mk, "grow"), (f, mk, "shrink")]
         g = "vec_znx_big_rotate" if kind == "rot" else "vec_znx_big_automorphism"
         for mk in ("fft64", "fft64-generic"):
             if mk in self.mods:
-                out += [(g, mk, False), (g, mk, True)]
+                out += [(g, mk, False), (g, mk, True), (g, mk, "grow"), (g, mk, "shrink")]
         return out
 
     def run(self, f, mk, inplace, p, x):
@@ -103,6 +103,23 @@ class Wrappers:
             L.call(f, mod, p, a, 2, n, a, 2, asl)
             ok = a.canaries_ok() and np.array_equal(a.i64[n:2 * n], 2 * a.i64[0:n]) and bool((a.u8[8 * 2 * n:8 * asl] == 0x33).all())
             return a.i64[0:n].copy() if ok else None
+        if inplace in ("grow", "shrink"):    # in place with unequal sizes: res_size = a_size + 1 (the extra limb, stale before the
+            a = Buf(8 * 3 * sl, fill=0x33)   # call, must come out zero) or res_size = a_size - 1 (the last source limb is not output)
+            a.i64[0:n] = x
+            a.i64[sl:sl + n] = 2 * x
+            a.i64[2 * sl:2 * sl + n] = 3 * x + 1
+            rsz, asz = (3, 2) if inplace == "grow" else (1, 2)
+            if big:
+                L.call(f, mod, p, a, rsz, a, asz)
+            else:
+                L.call(f, mod, p, a, rsz, sl, a, asz, sl)
+            rv = a.i64
+            ok = a.canaries_ok() and (big or (bool((a.u8[8 * n:8 * sl] == 0x33).all()) and bool((a.u8[8 * (sl + n):8 * 2 * sl] == 0x33).all())))
+            if inplace == "grow":
+                ok = ok and np.array_equal(rv[sl:sl + n], 2 * rv[0:n]) and not rv[2 * sl:2 * sl + n].any()
+            else:
+                ok = ok and np.array_equal(rv[sl:sl + n], 2 * x) and np.array_equal(rv[2 * sl:2 * sl + n], 3 * x + 1)
+            return rv[0:n].copy() if ok else None
         a = Buf(8 * 2 * sl, fill=0x33)
         av = a.i64
         av[0:n] = x
@@ -248,7 +265,7 @@ def drive_b(rec, n, full, quick):
                     continue
                 got = W.run(f, mk, ip, p, probe)
                 groups.setdefault(None if got is None else got.tobytes(), []).append(
-                    "%s[%s%s]" % (f, mk, (",inplace, one limb, res_sl != a_sl" if ip == "one" else ",compacted in place" if ip == "compact" else ",inplace") if ip else ""))
+                    "%s[%s%s]" % (f, mk, (",inplace, one limb, res_sl != a_sl" if ip == "one" else ",compacted in place" if ip == "compact" else ",inplace, res_size = a_size + 1" if ip == "grow" else ",inplace, res_size = a_size - 1" if ip == "shrink" else ",inplace") if ip else ""))
                 rec.case((f, mk, ip, n, p % (2 * n) if full else p))
             for key, names in groups.items():
                 if key is None:
